@@ -386,8 +386,9 @@ def rule_typed_dict_fields(ctx: Ctx, repo: Repo) -> None:
 def run(ctx: Ctx, repo: Repo, tier: str) -> None:
     ctx.trust("Python's grammar as implemented by ast.parse of the analysing interpreter (oracle for the rendered text)",
               "Python semantics of classmethod/staticmethod/property: which of them receive the instance/class first")
-    rule_signature(ctx, repo, tier)
-    rule_kinds(ctx, repo)
-    rule_async(ctx, repo)
-    rule_modules(ctx, repo)
-    rule_typed_dict_fields(ctx, repo)
+    ctx.attempt(rule_signature, ctx, repo, tier)
+    ctx.attempt(rule_kinds, ctx, repo)
+    ctx.attempt(rule_async, ctx, repo)
+    ctx.attempt(rule_modules, ctx, repo)
+    ctx.attempt(rule_typed_dict_fields, ctx, repo)
+    ctx.settle()
